@@ -2352,6 +2352,9 @@ class Node(_protocols.NodeProtocol, _display.PrettyPrintable):
     @name.setter
     def name(self, value: str | None) -> None:
         self._name = value
+        if self._graph is not None:
+            # The graph must never generate this name for another node
+            self._graph._name_authority.register_node_name(value)  # pylint: disable=protected-access
 
     @property
     def domain(self) -> str:
@@ -3313,6 +3316,11 @@ class Value(WithArithmeticMethods, _protocols.ValueProtocol, _display.PrettyPrin
             assert old_name is not None
             graph.initializers.pop(old_name)
             graph.initializers[value] = self
+
+        owner = self.graph
+        if owner is not None:
+            # The owning graph must never generate this name for another value
+            owner._name_authority.register_value_name(value)  # pylint: disable=protected-access
 
     @property
     def type(self) -> _protocols.TypeProtocol | None:
